@@ -17,8 +17,48 @@ def runTree (t : Tree) : List C02.Op → Tree
   | [] => t
   | op :: ops => runTree (C02.stepModel t op).1 ops
 
-theorem inv_reachable (ops : List C02.Op) : Inv (runTree Tree.empty ops) := by
-  sorry -- PROOF TO BE FILLED: induction using inv_empty, put_refines, uput_refines, remove_refines
+/-- one step of the model keeps `Inv` and acts on the lookup function like the specification. -/
+theorem step_inv (t : Tree) (h : Inv t) (op : C02.Op) :
+    Inv (C02.stepModel t op).1 ∧
+    ∀ k, C02.lookup (C02.stepModel t op).1 k = (C02.stepSpec (C02.lookup t) op).1 k := by
+  cases op with
+  | put k v =>
+    obtain ⟨_, h2, h3⟩ := C02.put_refines t k v h
+    exact ⟨h2, h3⟩
+  | uput k v =>
+    obtain ⟨ha, hb⟩ := C02.uput_refines t k v h
+    simp only [C02.stepModel, C02.stepSpec]
+    cases hl : C02.lookup t k with
+    | some w =>
+      obtain ⟨_, h2⟩ := ha (by rw [hl]; rfl)
+      simp only [Option.isSome_some, if_true]
+      rw [h2]; exact ⟨h, fun _ => rfl⟩
+    | none =>
+      obtain ⟨_, h2, h3⟩ := hb hl
+      simp only [Option.isSome_none, Bool.false_eq_true, if_false]
+      exact ⟨h2, h3⟩
+  | get k => exact ⟨h, fun _ => rfl⟩
+  | remove k d =>
+    obtain ⟨_, h2, h3⟩ := C02.remove_refines t k d h
+    exact ⟨h2, h3⟩
+
+theorem inv_run (t : Tree) (h : Inv t) (ops : List C02.Op) : Inv (runTree t ops) := by
+  induction ops generalizing t with
+  | nil => exact h
+  | cons op ops ih => exact ih _ (step_inv t h op).1
+
+/-- the lookup function of the reached state is the map the specification computes. -/
+theorem lookup_run (t : Tree) (h : Inv t) (ops : List C02.Op) (k : Key) :
+    C02.lookup (runTree t ops) k = C02.runSpecState (C02.lookup t) ops k := by
+  induction ops generalizing t with
+  | nil => rfl
+  | cons op ops ih =>
+    obtain ⟨h1, h2⟩ := step_inv t h op
+    simp only [runTree, C02.runSpecState]
+    rw [ih _ h1, funext h2]
+
+theorem inv_reachable (ops : List C02.Op) : Inv (runTree Tree.empty ops) :=
+  inv_run Tree.empty C02.inv_empty.1 ops
 
 /-- `checkInv` decides `Inv`. -/
 theorem checkInv_iff (t : Tree) : checkInv t = true ↔ Inv t := Yak.Tree.checkInv_iff t
@@ -35,6 +75,7 @@ theorem content_sorted (t : Tree) (h : Inv t) :
 theorem content_is_last_put (ops : List C02.Op) (k : Key) (v : Val) :
     (k, v) ∈ content (runTree Tree.empty ops) ↔
       (C02.runSpecState (fun _ => none) ops) k = some v := by
-  sorry -- PROOF TO BE FILLED from lookup_iff_content, inv_reachable and the refinement theorems
+  rw [← lookup_iff_content _ (inv_reachable ops), lookup_run Tree.empty C02.inv_empty.1 ops k,
+    funext C02.inv_empty.2]
 
 end Yak.Props.C08
